@@ -418,6 +418,25 @@ def gen_case(rng, max_order=6, max_vocab=60, size="small", force=None):
     if has_eos:
         grams[1].add(("</s>",))
     grams = _fix_contexts(N, grams)
+    # (g) rare: no <unk> unigram, but n-grams that contain the literal word <unk> (the loader lets it through)
+    unk_ngrams = 0
+    if unk is None and N >= 2 and force.get("unk_in_ngrams", rng.random() < 0.25):
+        for _ in range(rng.randrange(2, 7)):
+            w1, w2 = rng.choice(words), rng.choice(words)
+            k = rng.random()
+            if k < 0.4:
+                add = [(w1, "<unk>")]
+            elif k < 0.7:
+                add = [("<unk>", w1)]
+            elif N >= 3 and k < 0.85:
+                add = [(w1, "<unk>"), (w1, "<unk>", w2), ("<unk>", w2)]
+            elif N >= 3:
+                add = [("<unk>", w1), ("<unk>", w1, w2), (w1, w2)]
+            else:
+                add = [(w1, "<unk>")]
+            for g in add:
+                grams[len(g)].add(g)
+                unk_ngrams += 1
     # (b') deep blank chains: every basis order 1..N-2 and every chain length
     chains = []
     must_bo = set()
@@ -536,7 +555,7 @@ def gen_case(rng, max_order=6, max_vocab=60, size="small", force=None):
                         w = rng.choice(nxt)
                         break
             if w is None:
-                if k > 0.93:
+                if k > 0.93 or (unk_ngrams and k > 0.75):
                     w = rng.choice(["oov", "zzz", "<unk>", "<UNK>", "OOV日"])
                 elif k > 0.90 and has_bos:
                     w = "<s>"
@@ -548,7 +567,7 @@ def gen_case(rng, max_order=6, max_vocab=60, size="small", force=None):
     c.queries = chain_queries + queries
     c.chains = chains
     c.shared = shared
-    c.meta = {"shared": len(shared), "chains": len(chains), "order": N, "vocab": len(table[1]), "kind": kind, "unk": unk or "absent", "crlf": crlf,
+    c.meta = {"unk_ngrams": unk_ngrams, "shared": len(shared), "chains": len(chains), "order": N, "vocab": len(table[1]), "kind": kind, "unk": unk or "absent", "crlf": crlf,
               "bos": has_bos, "eos": has_eos, "bitbound": bitbound, "style_c": style_c,
               "closed": is_suffix_closed(N, {n: set(table[n]) for n in table}),
               "ngrams": sum(len(table[n]) for n in table)}
